@@ -250,11 +250,28 @@ fn triple_case<P: G>(cfg: Cfg, seeded: bool, tier: Tier) -> Box<dyn Case> {
             g[k] = g[k].g_add(&pc.h_base);
             gens_variants.push((format!("G{}+=H", k), pc_gens_from(pc.h_base.clone(), g)));
         }
+        // a generator replaced by the identity element (consistently: point and encoding)
+        gens_variants.push(("H=identity".to_string(), pc_gens_from(P::g_identity(), pc.g_base_vec.clone())));
+        for k in [0usize, cfg.d - 1] {
+            let mut g = pc.g_base_vec.clone();
+            g[k] = P::g_identity();
+            gens_variants.push((format!("G{}=identity", k), pc_gens_from(pc.h_base.clone(), g)));
+            if cfg.d == 1 {
+                break;
+            }
+        }
         // (A generator object whose point and cached encoding disagree is not "another commitment generator": such an object
         // is produced by no constructor. On the pinned tree the encoding of H is read from the first statement of a chunk only,
         // so an edited encoding on a later member goes unnoticed; outside this property, see DESIGN.md 10.4, wave 9.)
         for (name, pc2) in gens_variants {
-            let params2 = P::params(cfg.n, cfg.c, pc2).unwrap();
+            let params2 = match catch(|| P::params(cfg.n, cfg.c, pc2)) {
+                Ok(Ok(p)) => p,
+                Ok(Err(_)) => continue,
+                Err(p) => {
+                    res.violate(format!("generator:{}/params", name), format!("parameter construction panicked: {}", p));
+                    continue;
+                },
+            };
             if let Ok(st) = P::statement(params2, built.commitments.clone(), wit.promises.clone(), wit.seed) {
                 proof_bytes_or_obj(&st, &format!("generator:{}", name), &mut res, false);
             }
